@@ -172,6 +172,17 @@ func c18Units(ctx *core.Ctx) []core.Unit {
 					if p.name != "zero" {
 						r.Nontrivial++
 					}
+					if k%16 == 3 && len(q) == 256 {
+						// same for the quotient: overwrite it, divide again
+						first := frsDigest(q)
+						for i := range q {
+							q[i] = dirtyFr()
+						}
+						q = pw.DivideOnDomain(uint8(k), f)
+						if frsDigest(q) != first {
+							vio(r, "c18.result_alias", "ipa.PrecomputedWeights.DivideOnDomain", in+" called again after the caller overwrote the first result", "the same quotient", "different")
+						}
+					}
 					want := refQuotient(p.coef, p.v[k], k)
 					if len(q) != 256 {
 						vio(r, "c18.divide", "ipa.PrecomputedWeights.DivideOnDomain", in, "256 evaluations", fmt.Sprint(len(q)))
@@ -220,6 +231,15 @@ func c18Units(ctx *core.Ctx) []core.Unit {
 			want := ref.BVec(z)
 			r.Evals++
 			r.Nontrivial++
+			// the returned vector belongs to the caller: scribbling on it must not influence a later call
+			keep := append([]fr.Element(nil), b...)
+			for i := range b {
+				b[i] = dirtyFr()
+			}
+			if b2 := pw.ComputeBarycentricCoefficients(frFromBig(z)); len(b2) != len(keep) || frsDigest(b2) != frsDigest(keep) {
+				vio(r, "c18.result_alias", "ipa.PrecomputedWeights.ComputeBarycentricCoefficients", in+" called again after the caller overwrote the first result", "the same coefficients", "different (the result shares memory with internal state)")
+			}
+			b = keep
 			if len(b) != 256 {
 				vio(r, "c18.bary", "ipa.PrecomputedWeights.ComputeBarycentricCoefficients", in, "256 coefficients", fmt.Sprint(len(b)))
 				continue
